@@ -240,7 +240,7 @@ HealBegin(s) == [s EXCEPT !.healFrom = Len(s.acc)]
 
 HealEnd(s) ==
   LET s1 == IF Op(s) = "yes" /\ ~s.ovl /\ Cardinality(UpConns(s)) # 1 THEN V(s, "HealNotConnected") ELSE s
-      s2 == IF \E i \in Idx(s) : i > s.healFrom /\ s.acc[i].st = "ok" /\ s.acc[i].tx = 0
+      s2 == IF ~s.ovl /\ \E i \in Idx(s) : i > s.healFrom /\ s.acc[i].st = "ok" /\ s.acc[i].tx = 0
                                   /\ Alive(s, s.acc[i]) /\ NeedsTx(s.acc[i])
             THEN V(s1, "HealNotTransmitting") ELSE s1
       s3 == IF \E c \in OpenConns(s) : s.rx[c].pend # <<>> THEN V(s2, "HealNotReceiving") ELSE s2
